@@ -60,11 +60,12 @@ HOSTILE_STR = [
 INT_POOL = [0, 1, 2, 3, 4, 5, 7, 8, 10, 11, 12, 20, 25, 100]
 
 
-def benign_of(src_text):
-    """A benign literal of the same type and the same length as the value of src_text (letters only)."""
+def benign_of(src_text, which=1):
+    """A benign literal of the same type and the same length as the value of src_text (letters only); `which` selects
+    one of two different benign texts (no letter in common at any position)."""
     v = ast.literal_eval(src_text)
     letters = "abcdefghijklmnopqrstuvwxyz"
-    out = "".join(letters[(i * 7 + len(v)) % 26] for i in range(len(v)))
+    out = "".join(letters[(i * 7 + len(v) + (0 if which == 1 else 11)) % 26] for i in range(len(v)))
     return '"' + out + '"'
 
 
@@ -147,14 +148,14 @@ class Program:
     def text(self):
         return "\n".join(self.lines) + "\n"
 
-    def variant_text(self):
+    def variant_text(self, which=1):
         """Same program with the chosen hostile literal replaced by a benign one of the same length."""
         if self.slot is None:
             return None
         line, src, _ = self.slot
         ls = list(self.lines)
         assert src in ls[line - 1]
-        ls[line - 1] = ls[line - 1].replace(src, benign_of(src), 1)
+        ls[line - 1] = ls[line - 1].replace(src, benign_of(src, which), 1)
         return "\n".join(ls) + "\n"
 
     def to_case(self):
